@@ -214,6 +214,19 @@ pub fn c18_icase(rep: &mut Report, aux: &str, n: usize, seed: u64) {
             hay.extend(variant.iter());
             hay.push(*rng.pick(&alpha));
             hay.extend(s.iter().map(|c| *rng.pick(&f.class(*c, !unicode))));
+            // near misses: a variant with one character replaced by U+0000, by a character that aliases it
+            // when truncated to 8 or 16 bits, or by its ASCII case-bit neighbour
+            for _ in 0..2 {
+                let mut miss = variant.clone();
+                let k = rng.below(miss.len());
+                let c = miss[k];
+                let cand = [0, 0x10000 + (c & 0xFFFF), 0x100 + (c & 0xFF), c ^ 0x20, 0x20000 + (c & 0xFFFF), c + 1];
+                miss[k] = *rng.pick(&cand);
+                if char::from_u32(miss[k]).is_some() {
+                    hay.push('-' as u32);
+                    hay.extend(miss.iter());
+                }
+            }
             let h = ast::to_string(&hay);
             // expected: leftmost non-overlapping windows whose canonical forms equal those of s
             let hc: Vec<(usize, char)> = h.char_indices().collect();
